@@ -1026,21 +1026,24 @@ func (d *driver) describe(c *checkRun, f *FilterSpec, ev map[string]any) {
 				}
 			}
 			sym := "raw"
+			forwardable := false // only ID and access tokens may travel upstream; anything else in a header value is judged as a leak
 			if s, ok := d.rec.lookup("id", tok); ok {
-				sym = s
+				sym, forwardable = s, true
 			} else if s, ok := d.rec.lookup("at", tok); ok {
-				sym = s
+				sym, forwardable = s, true
 			} else if s, ok := d.rec.lookup("rt", tok); ok {
 				sym = s
 			} else if s, ok := d.rec.lookup("id", v); ok {
-				sym, pre = s, ""
+				sym, pre, forwardable = s, "", true
 			} else if s, ok := d.rec.lookup("at", v); ok {
-				sym, pre = s, ""
+				sym, pre, forwardable = s, "", true
 			}
 			up = append(up, map[string]any{"k": k, "pre": pre, "tok": sym,
 				"append": h.GetAppend().GetValue() || h.GetAppendAction() != 0 && h.GetAppendAction().String() != "OVERWRITE_IF_EXISTS_OR_ADD"})
-			allow[tok] = true
-			allow[v] = true
+			if forwardable {
+				allow[tok] = true
+				allow[v] = true
+			}
 		}
 		sort.Slice(up, func(i, j int) bool { return up[i].(map[string]any)["k"].(string) < up[j].(map[string]any)["k"].(string) })
 		ev["upstream"] = up
